@@ -255,7 +255,8 @@ func (s *sim) txnReads(what string, txn *part.Txn[uint64], tm map[string]uint64,
 				if s.rng.IntN(2) == 0 {
 					wk = []byte(all[s.rng.IntN(len(all))].K) // an existing key: often the one just yielded or one still to come
 				}
-				s.applyWrite(what+" in-loop", txn, tm, ts, s.rng.IntN(6), wk)
+				s.logf("%s (next write is inside the All loop)", what)
+				s.applyWrite(what, txn, tm, ts, s.rng.IntN(6), wk) // same origin tag: its watch channels belong to this transaction
 			}
 			return true
 		})
